@@ -694,6 +694,19 @@ def equal(a, b):
     if isinstance(a, SeqV) or isinstance(b, SeqV):
         from .seqs import seq_equal
         return seq_equal(a, b)
+    from .values import LitSet
+    if isinstance(a, LitSet) and isinstance(b, LitSet):
+        if not any(is_z3(x) for x in a.items + b.items):
+            univ = []
+            for x in a.items + b.items:
+                if not any(x is u or (x is not NONE and u is not NONE and x == u) for u in univ):
+                    univ.append(x)
+
+            def has(s_, u):
+                cs = [s_.cond(i) for i, x in enumerate(s_.items) if x is u or (x is not NONE and u is not NONE and x == u)]
+                return b_or(*cs) if cs else False
+            return b_and(*[_iff(has(a, u), has(b, u)) for u in univ]) if univ else True
+        raise EngineError("equality of sets with symbolic members")
     if isinstance(a, ObjV) and "__id__" in a.fields and not isinstance(b, ObjV):
         return equal(a.fields["__id__"], b)
     if isinstance(b, ObjV) and "__id__" in b.fields and not isinstance(a, ObjV):
@@ -718,6 +731,12 @@ def equal(a, b):
         return to_bool_term(a) == to_bool_term(b)
     k, x, y = coerce_pair(a, b)
     return x == y
+
+
+def _iff(x, y):
+    if isinstance(x, bool) and isinstance(y, bool):
+        return x == y
+    return _tb(x) == _tb(y)
 
 
 def merge(c, a, b):
